@@ -1,7 +1,8 @@
 """C04 - conditional refinement never removes feasible values."""
 import core
 from core import Report
-from common import TRUSTED, first_with
+import strict_canary
+from common import TRUSTED
 
 TRACE_SPEC = "trace/T_C04.tla"
 
@@ -26,18 +27,20 @@ def check(seed, tier):
     meta = core.gen("C04", seed, tier, shards=8 if tier == "quick" else 16)
     core.validate_traces(rep, TRACE_SPEC, meta["files"], parallel=8, timeout=5400)
 
+    def eligible(e):
+        return e["ev"] == "batch" and e["kind"] == "sle" and e["panic"] == "" and e["cls"] == "" and e["x"]["s"] != e["x"]["e"]
+
     def mutate(evs):
         # x <=s 127 holds for every member: the result for bound 127 must contain all of x.
         # Shrink it to the singleton {start}: the end of x is lost.
-        i = first_with(evs, lambda e: e["ev"] == "batch" and e["kind"] == "sle" and e["panic"] == "" and e["x"]["s"] != e["x"]["e"], start=0)
-        if i is not None:
-            r = evs[i]["results"][127]
-            r["ok"] = True
-            r["v"] = dict(evs[i]["x"])
-            r["v"]["e"] = list(evs[i]["x"]["s"])
-            r["v"]["st"] = [0] * 8
+        i = min(2, len(evs) - 1)
+        r = evs[i]["results"][127]
+        r["ok"] = True
+        r["v"] = dict(evs[i]["x"])
+        r["v"]["e"] = list(evs[i]["x"]["s"])
+        r["v"]["st"] = [0] * 8
         return i
-    core.canary(rep, TRACE_SPEC, meta["files"][0], mutate, n=60)
+    strict_canary.run(rep, TRACE_SPEC, meta["files"][0], eligible, mutate, n=6)
     rep.traces, rep.events = meta["cases"], meta["events"]
     batches = sum(1 for f in meta["files"] for line in open(f) if '"ev":"batch"' in line[:80])
     return rep.finish("model_checking", {
